@@ -12,7 +12,7 @@ type planItem struct {
 var quickPlan = []planItem{
 	{spectypes.BNRoleAttester, "full", 5},
 	{spectypes.BNRoleAttester, "local", 10},
-	{spectypes.BNRoleAttester, "cert", 7},
+	{spectypes.BNRoleAttester, "cert", 8}, // 8: start, decided, 3 post-consensus shares (finished), 2 evicting certificates, replayed certificate
 	{spectypes.BNRoleProposer, "full", 5},
 	{spectypes.BNRoleProposer, "local", 9},
 	{spectypes.BNRoleProposer, "cert", 6},
